@@ -1,10 +1,13 @@
 (* C15 -- least-squares and factorisation solvers.  Executable definitions only (no proofs).
    M : computechi2 (pydl/pydlutils/math.py), HMF.astep/gstep/astepnn/gstepnn/badness/normbase
        (pydl/pydlspec2d/spec1d.py) over exact rationals.
+   Every elementwise expression, broadcasting axis and slice offset of M is taken from Generated/Chi2.v (names g_...),
+   regenerated from the source by translate/c15.py on every run; the forms ..._ref are the hand-written reference forms
+   the theorems go through.  Hand-written: list plumbing, SVD/solve/eigh (oracles), kmeans, reorder, normalisation.
    S : certified checkers chi2_ok, astep_ok, gstep_ok, eig_ok, pcomp_ok, pca_ok evaluated on the arrays the
        implementation returns.  LAPACK eigh/svd are oracles: their outputs are checked per case, not modelled. *)
 From Coq Require Import QArith Qabs Qminmax ZArith List Bool.
-From PV Require Import Lib.WLS C13.LinAlg.
+From PV Require Import Lib.WLS C13.LinAlg Generated.Chi2.
 Import ListNotations.
 Open Scope Q_scope.
 
@@ -24,7 +27,7 @@ Fixpoint cc_chi2 (A : mat) (sq b a : vec) : Q :=
 Definition cc_dof (sq : vec) (nstar : nat) : Z :=
   (Z.of_nat (length (filter (fun s => Qlt_bool 0 s) sq)) - Z.of_nat nstar)%Z.
 
-Definition computechi2 (b sq : vec) (A : mat) : option chi2res :=
+Definition computechi2_ref (b sq : vec) (A : mat) : option chi2res :=
   let nstar := ncols A in
   let D := cc_data A sq b in
   let mm := mred (normal_mat nstar D) in
@@ -32,6 +35,34 @@ Definition computechi2 (b sq : vec) (A : mat) : option chi2res :=
   | Some a, Some cov =>
       Some {| c_acoeff := a; c_chi2 := cc_chi2 A sq b a; c_yfit := mat_vec A a;
               c_dof := cc_dof sq nstar; c_covar := cov; c_var := diag cov |}
+  | _, _ => None
+  end.
+
+(* ---- computechi2 with the expressions of the source *)
+(* mmatrix = amatrix * tile(sqivar) on the axis the source uses *)
+Definition gen_mm (A : mat) (sq : vec) : mat :=
+  match g_mm_axis with
+  | ScaleRows => map2 (fun r s => map (fun a => g_mm a s) r) A sq
+  | ScaleCols => map (fun r => map2 g_mm r sq) A
+  end.
+Definition gen_bw (b sq : vec) : vec := map2 g_bw b sq.
+(* the code works on the pre-weighted system: unit weights *)
+Definition gen_data (A : mat) (sq b : vec) : list obs :=
+  let Mm := gen_mm A sq in combine (combine Mm (map (fun _ => 1) Mm)) (gen_bw b sq).
+Fixpoint gen_chi2 (Mm : mat) (bw a : vec) : Q :=
+  match Mm, bw with
+  | r :: Mm', y :: bw' => Qred (g_chi2_term (dotr r a) y + gen_chi2 Mm' bw' a)
+  | _, _ => 0
+  end.
+Definition computechi2 (b sq : vec) (A : mat) : option chi2res :=
+  let nstar := ncols A in
+  let D := gen_data A sq b in
+  let mm := mred (normal_mat nstar D) in
+  match solve_checked mm (vred (normal_rhs nstar D)), inverse_checked mm with
+  | Some a, Some cov =>
+      Some {| c_acoeff := a; c_chi2 := gen_chi2 (gen_mm A sq) (gen_bw b sq) a; c_yfit := mat_vec A a;
+              c_dof := g_dof (Z.of_nat (length (filter g_dof_good sq))) (Z.of_nat nstar);
+              c_covar := cov; c_var := diag cov |}
   | _, _ => None
   end.
 
@@ -53,11 +84,11 @@ Definition gat (g : mat) (k n : nat) : Q := nth n (nth k g []) 0.
 Definition pen_data (K : nat) (e : Q) (g : mat) (M j : nat) : list obs :=
   flat_map (fun n => map (fun k => (unit_vec K k, e, gat g k n)) (seq 0 K)) (nbrs M j).
 
-Definition astep (s w g : mat) : option mat :=
+Definition astep_ref (s w g : mat) : option mat :=
   opt_all (map2 (fun si wi => wls_solve (length g) (hmf_row_data g wi si)) s w).
 
 (* as the code does it: Aj = sum_i w_ij a_i a_i^T + d[:,:,j] ; Fj = a^T (s_j w_j) + e[:,j] *)
-Definition gstep_col (s w a g : mat) (eps : option Q) (K M j : nat) : option vec :=
+Definition gstep_col_ref (s w a g : mat) (eps : option Q) (K M j : nat) : option vec :=
   let D := hmf_col_data a (col j w) (col j s) in
   let Aj := normal_mat K D in
   let Fj := normal_rhs K D in
@@ -70,6 +101,48 @@ Definition gstep_col (s w a g : mat) (eps : option Q) (K M j : nat) : option vec
       solve_checked (mred (madd Aj d)) (vred (vadd Fj ej))
   end.
 
+Definition gstep_ref (s w a g : mat) (eps : option Q) : option mat :=
+  let K := ncols a in
+  let M := ncols s in
+  match opt_all (map (gstep_col_ref s w a g eps K M) (seq 0 M)) with
+  | Some cols => Some (transpose cols)
+  | None => None
+  end.
+
+(* ---- the same with the terms of the source *)
+(* sum over the observations of T(r_k, r_kp, w) / of r_k * F(y, w) *)
+Fixpoint gen_normal (T : Q -> Q -> Q -> Q) (m : nat) (D : list obs) : mat :=
+  match D with
+  | [] => zero_mat m
+  | o :: D' => let '(r, w, y) := o in madd (map (fun a => map (fun b => T a b w) r) r) (gen_normal T m D')
+  end.
+Fixpoint gen_rhsF (F : Q -> Q -> Q) (m : nat) (D : list obs) : vec :=
+  match D with
+  | [] => zeros m
+  | o :: D' => let '(r, w, y) := o in vadd (map (fun a => a * F y w) r) (gen_rhsF F m D')
+  end.
+Definition astep (s w g : mat) : option mat :=
+  opt_all (map2 (fun si wi => let D := hmf_row_data g wi si in
+                              solve_checked (mred (gen_normal g_astep_G (length g) D)) (vred (gen_rhsF g_astep_F (length g) D))) s w).
+Definition eps_active_gen (eps : option Q) : option Q :=
+  match eps with Some e => if g_eps_pos e then Some e else None | None => None end.
+(* e[:, j] and the multiplier of d[:, :, j] as the three assignments / the loop of the source give them *)
+Definition gen_e (e : Q) (g : mat) (M j k : nat) : Q :=
+  if Nat.eqb j 0 then g_e_first e (gat g k g_e_first_src)
+  else if Nat.eqb j (M - 1) then g_e_last e (gat g k (g_e_last_src M))
+  else g_e_mid e (gat g k (g_e_mid_src_a j)) (gat g k (g_e_mid_src_b j)).
+Definition gen_dmult (M j : nat) : Q := if g_d_interior j M then g_d_factor else 1.
+Definition gstep_col (s w a g : mat) (eps : option Q) (K M j : nat) : option vec :=
+  let D := hmf_col_data a (col j w) (col j s) in
+  let Aj := gen_normal g_gstep_A K D in
+  let Fj := gen_rhsF g_gstep_F K D in
+  match eps_active_gen eps with
+  | None => solve_checked (mred Aj) (vred Fj)
+  | Some e =>
+      let d := map (vscale (g_d_diag e * gen_dmult M j)) (identity K) in
+      let ej := map (gen_e e g M j) (seq 0 K) in
+      solve_checked (mred (madd Aj d)) (vred (vadd Fj ej))
+  end.
 Definition gstep (s w a g : mat) (eps : option Q) : option mat :=
   let K := ncols a in
   let M := ncols s in
@@ -81,23 +154,21 @@ Definition gstep (s w a g : mat) (eps : option Q) : option mat :=
 Definition astepnn (s w a g : mat) : mat :=
   let ag := mat_mul a g in
   map2 (fun t ai => let '(si, wi, agi) := t in
-          map2 (fun gk aik => aik * (dot (map2 Qmult si wi) gk / dot (map2 Qmult agi wi) gk)) g ai)
+          map2 (fun gk aik => g_nn_upd aik (dot (map2 g_nn_num si wi) gk) (dot (map2 g_nn_den agi wi) gk)) g ai)
        (combine (combine s w) ag) a.
 
 Definition gstepnn (s w a g : mat) (eps : option Q) : mat :=
-  let sw := hadamard s w in
-  let agw := hadamard (mat_mul a g) w in
+  let sw := map2 (map2 g_nn_num) s w in
+  let agw := map2 (map2 g_nn_den) (mat_mul a g) w in
   let M := ncols g in
-  map2 (fun atk gk =>
+  map2 (fun atk kg => let '(k, gk) := kg in
           map (fun j =>
                  let gkj := nth j gk 0 in
-                 let e_ := match eps_active eps with
-                           | Some e => e * vsum (map (fun n => nth n gk 0) (nbrs M j)) | None => 0 end in
-                 let d_ := match eps_active eps with
-                           | Some e => e * inject_Z (Z.of_nat (length (nbrs M j))) * gkj | None => 0 end in
-                 gkj * ((dot atk (col j sw) + e_) / (dot atk (col j agw) + d_)))
+                 let e_ := match eps_active_gen eps with Some e => gen_e e g M j k | None => 0 end in
+                 let d_ := match eps_active_gen eps with Some e => g_nn_d e gkj * gen_dmult M j | None => 0 end in
+                 g_nn_upd gkj (dot atk (col j sw) + e_) (dot atk (col j agw) + d_))
               (seq 0 M))
-       (transpose a) g.
+       (transpose a) (combine (seq 0 (length g)) g).
 
 (* sum_ij w_ij (s_ij - (a g)_ij)^2 *)
 Definition chi2_mat (s w a g : mat) : Q :=
@@ -111,7 +182,9 @@ Definition penalty (eps : option Q) (g : mat) : Q :=
 Definition badness (s w a g : mat) (eps : option Q) : Q := chi2_mat s w a g + penalty eps g.
 
 (* normbase() squared: mean_j g_kj^2 *)
-Definition normbase2 (g : mat) : vec := map (fun gk => vsum (map sqr gk) / inject_Z (Z.of_nat (length gk))) g.
+Definition normbase2 (g : mat) : vec :=
+  let G := if Nat.eqb g_norm_axis 1 then g else transpose g in
+  map (fun gk => vsum (map g_norm_sq gk) / inject_Z (Z.of_nat (length gk))) G.
 (* g /= norm ; a *= norm *)
 Definition normalise (n : vec) (a g : mat) : mat * mat :=
   (map (fun ai => map2 Qmult ai n) a, map2 (fun gk nk => map (fun v => v / nk) gk) g n).
@@ -277,6 +350,16 @@ Definition hmf_clauses (s w a g : mat) (eps : option Q) (ia ig iann ignn : mat) 
   ; (if mat_nonneg s && mat_nonneg w && mat_nonneg a && mat_nonneg g
      then mat_nonneg iann && mat_nonneg ignn else true) ].
 
+(* what the source says about pcomp's public arrays (sort idiom, scaling axis and factor, variance formula) *)
+Fixpoint ascending (v : vec) : bool :=
+  match v with a :: ((b :: _) as t) => qle a b && ascending t | _ => true end.
+Definition pcomp_model_agree (tol : Q) (C : mat) (ievals : vec) (icoef : mat) (ivariance : vec) : bool :=
+  let tr := Qred (vsum (diag C)) in
+  let vecs := match g_pcomp_axis with ScaleCols => transpose icoef | ScaleRows => icoef end in
+  (match g_pcomp_order with Descending => descending ievals | Ascending => ascending ievals end)
+  && vclose (qclose (tol * (1 + vmaxabs ievals))) (map (fun v => dotr v v) vecs) (map g_pcomp_norm2 ievals)
+  && vclose (qclose tol) ivariance (map (fun l => g_variance l tr) ievals).
+
 Definition b2z (bit : Z) (ok : bool) : Z := if ok then 0%Z else bit.
 
 Definition run_case (c : case) : Z :=
@@ -290,7 +373,8 @@ Definition run_case (c : case) : Z :=
                    end in
       (b2z 1 agree + b2z 2 (chi2_ok b sq A ia ichi2 iyfit idof icovar ivar))%Z
   | CPcomp x st cv sd0 sdc ievals icoef ider ivariance =>
-      b2z 2 (pcomp_ok tol8 x st cv sd0 sdc ievals icoef ider ivariance)
+      (b2z 1 (pcomp_model_agree tol8 (pcomp_C (pcomp_array x st sd0) cv sdc) ievals icoef ivariance)
+       + b2z 2 (pcomp_ok tol8 x st cv sd0 sdc ievals icoef ider ivariance))%Z
   | CHmf s w a g eps ia ig iann ignn inorm ibad ibad_a ibad_g =>
       let agree :=
         match astep s w g, gstep s w a g eps with
